@@ -13,7 +13,8 @@ EXTENDS Integers, Sequences, FiniteSets, TLC, Json, CSV, IOUtils
 CONSTANT MaxDepth
 
 Kinds  == {"throw", "div", "builtin", "nargs", "index", "notcallable", "forin", "slice", "selector", "setindex", "setselector", "constuse", "constcall", "foldmixed", "foldcall"}
-Styles == {"stmt", "assign", "retplus", "closure", "recur", "module", "method", "bare", "baremod", "inblock", "tryfin", "mutual"}
+Styles == {"stmt", "assign", "retplus", "closure", "recur", "module", "method", "bare", "baremod", "inblock", "tryfin", "mutual",
+           "ifcond", "forcond", "ternary", "argument", "index"}
 Blanks == {0, 1, 3}
 
 L(k, a, b) == [k |-> k, a |-> a, b |-> b]
@@ -25,6 +26,12 @@ Fn(i) == "f" \o ToString(i)
 CallLine(st, g) == CASE st = "stmt" -> L("callstmt", g, "")
                      [] st = "assign" -> L("callassign", g, "")
                      [] st = "retplus" -> L("callretplus", g, "")
+                     \* the call stands in the condition of if / for / ?:, in an argument list, in an index expression
+                     [] st = "ifcond" -> L("callif", g, "")
+                     [] st = "forcond" -> L("callfor", g, "")
+                     [] st = "ternary" -> L("callternary", g, "")
+                     [] st = "argument" -> L("callarg", g, "")
+                     [] st = "index" -> L("callindex", g, "")
                      [] OTHER -> L("callstmt", g, "")
 
 \* chain f1 -> f2 -> ... -> fd, fd fails; definitions first (innermost first), then the call in main
